@@ -677,7 +677,7 @@ def main():
     c.assumptions += ["RxSound rx (only for groups_exact / args_infix_of_request / the *_eq_spec theorems' group equalities)",
                       "request method, and the arguments of mount_point::match(char const*…) / applications_pool, are C strings by type",
                       "url_dispatcher::map()'s typed parameter parsing (parse_url_parameter, encoding validation) is represented by a generic handler that declines on a configured group value",
-                      "legacy asynchronous applications (second list scanned by applications_pool) are not modelled"]
+                      "applications_pool: both lists are modelled (pools/factories, then classic asynchronous intrusive_ptr mounts with dead ones purged); pool life-cycle beyond 'the application died' is not"]
     scale = 40 if c.tier == "thorough" else 1
 
     c.translate("c20.py")
@@ -750,6 +750,14 @@ def main():
                 elif o.startswith("err:") and k == "T": branch["tpl_error"] += 1
                 elif "err:" in o: branch["mapper_error"] += 1
         c.extra_cov["branches_hit_in_model"] = branch
+        pc = [(cs, o) for cs, o in zip(full, out_m) if cs.startswith("P ")]
+        c.extra_cov["pool_cases"] = {
+            "with_classic_async_mounts": sum(1 for cs, o in pc if " | A " in cs),
+            "with_both_lists": sum(1 for cs, o in pc if " | A " in cs and " | S " in cs),
+            "with_kill_rounds": sum(1 for cs, o in pc if cs.split()[6] != "0"),
+            "routed_to_a_classic_async_mount": sum(1 for cs, o in pc if o.split()[0].isdigit() and cs.split(" | ")[1 + int(o.split()[0])].startswith("A ")),
+            "no_mount_matched": sum(1 for cs, o in pc if o == "none"),
+        }
 
         # judge: the specification (Spec.lean) evaluated on the same raw engine answers must agree with what the
         # implementation did (D, MP, P, R); for R additionally: the handler registered for the key ran with exactly the parameters
